@@ -20,7 +20,7 @@ package reg
 //@   requires digest-verified: !$valid(old(caller.d).Digest) || caller.dOut == old(caller.d).Digest
 //@   requires size-verified: old(caller.d).Size == 0 || caller.chunkStart == old(caller.d).Size
 //@   requires digest-is-computed: caller.dOut == $digestAt(caller.digester, $hv)
-//@   requires stream-consumed: caller.finalChunk && caller.chunkStart >= caller.bufStart + len(caller.bufBytes)
+//@   requires stream-consumed: caller.finalChunk && $srcEnded && caller.chunkStart >= caller.bufStart + len(caller.bufBytes)
 //@   requires result-prepared: caller.d.Digest == caller.dOut && caller.d.Size == caller.chunkStart
 //@ callsite (*~/internal/reghttp.Client).Do(ctx, req)
 //@   prop C05
@@ -38,14 +38,20 @@ package reg
 //@   in ~/scheme/reg
 //@   infunc \)\.blobPutUploadChunked$
 //@   requires reads-through-digest-tee: r == caller.digestRdr
+// $srcEnded: the most recent io.ReadFull made directly by blobPutUploadChunked reported the end of
+// the caller's stream (io.EOF / io.ErrUnexpectedEOF); finalChunk may only be set on that evidence.
+//@ ghost $srcEnded bool
 //@ func (*Reg).blobPutUploadChunked(ctx, r, d, putURL, rdr) (dRet, err)
 //@   prop C05
+//@   on-call ReadFull: $srcEnded = (result1 == io.EOF || result1 == io.ErrUnexpectedEOF)
 //@   loop 0 ()
+//@     invariant final-means-stream-ended: finalChunk ==> $srcEnded
 //@     invariant size-is-len: chunkSize == len(bufBytes) && len(bufBytes) <= cap(bufBytes)
 //@     invariant reader-view: bufRdr != nil && $view(bufRdr) == bufBytes
 //@     invariant tee-wired: $teeSrc(digestRdr) == rdr && $teeDst(digestRdr) == $hashOf(digester)
 //@     invariant declared-kept: d == old(d)
 //@   loop 1 ()
+//@     invariant final-means-stream-ended: finalChunk ==> $srcEnded
 //@     invariant size-is-len: chunkSize == len(bufBytes) && len(bufBytes) <= cap(bufBytes)
 //@     invariant reader-view: bufRdr != nil && (bufChange || $view(bufRdr) == bufBytes)
 //@     invariant declared-kept: d == old(d)
